@@ -37,8 +37,10 @@ func handleRequestID(r *http.Request, w http.ResponseWriter, cfg config.LoggingC
 		return ""
 	}
 
-	requestID := strings.TrimSpace(r.Header.Get(header))
-	if requestID == "" {
+	// A supplied identifier is echoed exactly as the backend will see it; blanks only
+	// decide whether one was supplied at all
+	requestID := r.Header.Get(header)
+	if strings.TrimSpace(requestID) == "" {
 		requestID = generateIdentifier("req")
 		r.Header.Set(header, requestID)
 	}
@@ -51,8 +53,9 @@ func handleTraceID(r *http.Request, w http.ResponseWriter, cfg config.LoggingCon
 		return ""
 	}
 
-	traceID := strings.TrimSpace(r.Header.Get(header))
-	if traceID == "" {
+	// As for the request ID: echoed exactly as the backend will see it
+	traceID := r.Header.Get(header)
+	if strings.TrimSpace(traceID) == "" {
 		traceID = generateIdentifier("trace")
 		r.Header.Set(header, traceID)
 	}
